@@ -1,46 +1,321 @@
 package sym
 
-// threads.go: mutexes and (later) interpreter threads with explicit scheduling.
+// threads.go: interpreter threads with explicit, solver-independent scheduling.
+//
+// `go f()` creates an interpreter thread (a host goroutine that runs only when it holds
+// the baton). A context switch can happen only at scheduling points: sync.Mutex Lock/
+// Unlock, verif.Yield() (harness stubs call it where an I/O operation completes), loads and
+// stores of watched struct fields (verif.WatchField), thread start and thread end. At a
+// scheduling point the next thread is a decision of the explorer (every alternative is
+// explored), bounded by a number of preemptions (switching away from a thread that could
+// have continued). Memory is sequentially consistent.
 
-import "runtime"
+import (
+	"fmt"
+	"runtime"
+	"sync"
+)
 
 func runtimeStack(buf []byte) int { return runtime.Stack(buf, false) }
 
-type threads struct{}
+type thread struct {
+	id      int
+	resume  chan struct{}
+	done    bool
+	waitFor func() bool // non-nil: the thread is blocked while this returns true
+	frame   *frame
+	depth   int
+	started bool
+}
 
-func (t *threads) finish(m *Machine) {}
+type threadKill struct{}
+
+type threads struct {
+	list        []*thread
+	cur         *thread
+	preemptions int
+	maxPreempt  int
+	abort       interface{} // pathAbort / targetPanic raised in a non-main thread
+	held        map[*value]*thread
+	watch       map[string]bool
+	schedule    []int
+	wg          sync.WaitGroup
+}
+
+func (m *Machine) threadsInit() *threads {
+	if m.thr == nil {
+		main := &thread{id: 0, resume: make(chan struct{}, 1), started: true}
+		m.thr = &threads{list: []*thread{main}, cur: main, maxPreempt: 2, held: map[*value]*thread{}, watch: map[string]bool{}}
+	}
+	return m.thr
+}
+
+func (t *threads) runnable(th *thread) bool {
+	if th.done {
+		return false
+	}
+	if th.waitFor != nil && th.waitFor() {
+		return false
+	}
+	return true
+}
+
+// yield is a scheduling point of the current thread. mustSwitch: the current thread cannot
+// continue (blocked or finished).
+func (m *Machine) yield(why string) {
+	t := m.thr
+	if t == nil || len(t.list) < 2 {
+		return
+	}
+	cur := t.cur
+	var cands []*thread
+	curRunnable := t.runnable(cur)
+	if curRunnable {
+		cands = append(cands, cur)
+	}
+	if !curRunnable || t.preemptions < t.maxPreempt {
+		for _, th := range t.list {
+			if th != cur && t.runnable(th) {
+				cands = append(cands, th)
+			}
+		}
+	}
+	if len(cands) == 0 {
+		if cur.done {
+			// every thread finished or is blocked: if some are blocked forever that is a deadlock
+			for _, th := range t.list {
+				if !th.done {
+					panic(pathAbort{abortExit, "deadlock: thread blocked forever on a mutex"})
+				}
+			}
+			return
+		}
+		panic(pathAbort{abortExit, "deadlock: no runnable thread"})
+	}
+	k := 0
+	if len(cands) > 1 {
+		k = m.choice(len(cands), "schedule:"+why)
+	}
+	next := cands[k]
+	t.schedule = append(t.schedule, next.id)
+	if next == cur {
+		return
+	}
+	if curRunnable {
+		t.preemptions++
+	}
+	m.switchTo(next)
+}
+
+// switchTo hands the baton to next and parks the current thread until it is resumed.
+func (m *Machine) switchTo(next *thread) {
+	t := m.thr
+	cur := t.cur
+	cur.frame, cur.depth = m.curFrame, m.depth
+	t.cur = next
+	m.curFrame, m.depth = next.frame, next.depth
+	next.resume <- struct{}{}
+	if cur.done {
+		return // a finished thread's goroutine simply ends
+	}
+	<-cur.resume
+	// resumed
+	if t.abort != nil {
+		if cur.id == 0 {
+			a := t.abort
+			t.abort = nil
+			panic(a)
+		}
+		panic(threadKill{})
+	}
+	m.curFrame, m.depth = cur.frame, cur.depth
+}
+
+func (m *Machine) spawn(fr *frame, fn value, args []value) {
+	t := m.threadsInit()
+	th := &thread{id: len(t.list), resume: make(chan struct{}, 1)}
+	t.list = append(t.list, th)
+	m.facts["_schedule"] = "nondet"
+	t.wg.Add(1)
+	go func() {
+		defer t.wg.Done()
+		<-th.resume
+		if t.abort != nil {
+			th.done = true
+			return
+		}
+		th.started = true
+		defer func() {
+			r := recover()
+			th.done = true
+			if r != nil {
+				if _, kill := r.(threadKill); kill {
+					return
+				}
+				// abort of the whole path: wake the main thread with the reason
+				if t.abort == nil {
+					t.abort = r
+				}
+				main := t.list[0]
+				t.cur = main
+				main.resume <- struct{}{}
+				return
+			}
+			// normal end: pick another thread
+			func() {
+				defer func() {
+					if r := recover(); r != nil {
+						if t.abort == nil {
+							t.abort = r
+						}
+						main := t.list[0]
+						t.cur = main
+						main.resume <- struct{}{}
+					}
+				}()
+				m.yield("thread-end")
+			}()
+		}()
+		m.curFrame, m.depth = nil, 0
+		m.call(nil, fn, args)
+	}()
+	m.yield("spawn")
+}
+
+// finish is called when the harness function returns: all threads must be done.
+func (t *threads) finish(m *Machine) {
+	t.killAll()
+}
+
+func (t *threads) killAll() {
+	if t.abort == nil {
+		t.abort = threadKill{}
+	}
+	for _, th := range t.list[1:] {
+		if !th.done {
+			select {
+			case th.resume <- struct{}{}:
+			default:
+			}
+		}
+	}
+	t.wg.Wait()
+}
 
 func (m *Machine) mutexOp(fr *frame, name string, mu value) value {
-	held, _ := m.models["mutex"].(map[*value]int)
-	if held == nil {
-		held = map[*value]int{}
-		m.models["mutex"] = held
-	}
 	p := mu.(*value)
-	switch name {
-	case "(*sync.Mutex).Lock", "(*sync.RWMutex).Lock":
-		if held[p] != 0 {
-			panic(m.unsupported("Lock of a mutex already held by the only thread (self-deadlock)"))
+	if m.thr == nil || len(m.thr.list) < 2 {
+		held, _ := m.models["mutex"].(map[*value]int)
+		if held == nil {
+			held = map[*value]int{}
+			m.models["mutex"] = held
 		}
-		held[p] = 1
-	case "(*sync.Mutex).Unlock", "(*sync.RWMutex).Unlock":
-		if held[p] != 1 {
+		switch name {
+		case "(*sync.Mutex).Lock", "(*sync.RWMutex).Lock":
+			if held[p] != 0 {
+				panic(pathAbort{abortExit, "deadlock: Lock of a mutex already held by the only thread"})
+			}
+			held[p] = 1
+		case "(*sync.Mutex).Unlock", "(*sync.RWMutex).Unlock":
+			if held[p] != 1 {
+				panic(m.runtimePanic("sync: unlock of unlocked mutex"))
+			}
+			held[p] = 0
+		case "(*sync.RWMutex).RLock":
+			held[p] += 2
+		case "(*sync.RWMutex).RUnlock":
+			held[p] -= 2
+		}
+		return nil
+	}
+	t := m.thr
+	// carry over single-threaded lock state
+	if held, _ := m.models["mutex"].(map[*value]int); held != nil {
+		for k, v := range held {
+			if v == 1 && t.held[k] == nil {
+				t.held[k] = t.list[0]
+			}
+		}
+		delete(m.models, "mutex")
+	}
+	switch name {
+	case "(*sync.Mutex).Lock", "(*sync.RWMutex).Lock", "(*sync.RWMutex).RLock":
+		m.yield("lock")
+		if t.held[p] == t.cur {
+			panic(pathAbort{abortExit, "deadlock: recursive Lock"})
+		}
+		me := t.cur
+		for t.held[p] != nil && t.held[p] != me {
+			me.waitFor = func() bool { return t.held[p] != nil && t.held[p] != me }
+			m.yield("blocked")
+		}
+		me.waitFor = nil
+		t.held[p] = me
+	default:
+		if t.held[p] == nil {
 			panic(m.runtimePanic("sync: unlock of unlocked mutex"))
 		}
-		held[p] = 0
-	case "(*sync.RWMutex).RLock":
-		if held[p] == 1 {
-			panic(m.unsupported("RLock of a write-locked mutex (self-deadlock)"))
-		}
-		held[p] += 2
-	case "(*sync.RWMutex).RUnlock":
-		held[p] -= 2
+		delete(t.held, p)
+		m.yield("unlock")
 	}
 	return nil
 }
 
-func (m *Machine) spawn(fr *frame, fn value, args []value) {
-	panic(m.unsupported("go statement (threads not enabled for this harness)"))
+func registerThreadNatives(P *Program, reg func(string, func(fr *frame, args []value) value)) {
+	reg(verifPkg+".Yield", func(fr *frame, a []value) value {
+		fr.m.yield("yield")
+		return nil
+	})
+	wgs := func(m *Machine) map[*value]int {
+		t, _ := m.models["waitgroup"].(map[*value]int)
+		if t == nil {
+			t = map[*value]int{}
+			m.models["waitgroup"] = t
+		}
+		return t
+	}
+	reg("(*sync.WaitGroup).Add", func(fr *frame, a []value) value {
+		wgs(fr.m)[a[0].(*value)] += int(fr.m.concreteInt(a[1], "WaitGroup.Add"))
+		return nil
+	})
+	reg("(*sync.WaitGroup).Done", func(fr *frame, a []value) value {
+		wgs(fr.m)[a[0].(*value)]--
+		return nil
+	})
+	reg("(*sync.WaitGroup).Wait", func(fr *frame, a []value) value {
+		m := fr.m
+		p := a[0].(*value)
+		tab := wgs(m)
+		if tab[p] <= 0 {
+			return nil
+		}
+		t := m.thr
+		if t == nil {
+			panic(pathAbort{abortExit, "deadlock: WaitGroup.Wait with a positive counter and no other thread"})
+		}
+		me := t.cur
+		for tab[p] > 0 {
+			me.waitFor = func() bool { return tab[p] > 0 }
+			m.yield("wait")
+		}
+		me.waitFor = nil
+		return nil
+	})
+	reg(verifPkg+".Preemptions", func(fr *frame, a []value) value {
+		t := fr.m.threadsInit()
+		t.maxPreempt = int(fr.m.concreteInt(a[0], "Preemptions"))
+		return nil
+	})
+	reg(verifPkg+".WatchField", func(fr *frame, a []value) value {
+		t := fr.m.threadsInit()
+		t.watch[fr.m.str(a[0])] = true
+		return nil
+	})
+	reg(verifPkg+".Schedule", func(fr *frame, a []value) value {
+		t := fr.m.thr
+		if t == nil {
+			return ""
+		}
+		return fmt.Sprint(t.schedule)
+	})
 }
-
-func registerThreadNatives(P *Program, reg func(string, func(fr *frame, args []value) value)) {}
